@@ -190,6 +190,80 @@ theorem keeper_buffer_any_keys (has : Role → Bool) (p : Perms) (now expiry : I
     updateWithBuffer has p true now expiry es c = applyEntries es c :=
   buffer_applies_in_order has p now expiry es c hexp (Or.inl hmk)
 
+/-! ## role-table configurations: the guard is an ordered, failing fold over `has_role` -/
+open Gmx.Access
+
+/-- a caller who is a member, holds MARKET_KEEPER, and whose MARKET_KEEPER role is enabled -/
+def IsLiveKeeper (t : RoleTable) : Prop :=
+  t.member = true ∧ t.state .MARKET_KEEPER = .enabled ∧ t.bit .MARKET_KEEPER = true
+
+/-- A market keeper passes the guard of all three instructions WHATEVER the state of the other role
+(never enabled, disabled, enabled) — true because the source lists MARKET_KEEPER first: `has_role`
+fails for a role that is not enabled and `ensure_has_any_role` propagates the first failure. (With the
+role list in the other order this statement is false and does not compile.) -/
+theorem market_keeper_passes_regardless_of_other_role (t : RoleTable) (h : IsLiveKeeper t) :
+    guardE (info .store_update_market_config).attr t = .ok () ∧
+    guardE (info .store_update_market_config_flag).attr t = .ok () ∧
+    guardE (info .store_update_market_config_with_buffer).attr t = .ok () := by
+  obtain ⟨hm, he, hb⟩ := h
+  simp [guardE, info, ensureAnyE, hasRoleE, hm, he, hb]
+
+/-- … and then updates any key, whatever the updatable table and the other role's state -/
+theorem keeper_any_key_any_role_table (t : RoleTable) (h : IsLiveKeeper t) (p : Perms) (k : Key) (v : Nat) (c : Cfg) :
+    ∃ c', c.set k v = some c' ∧ updateFactorE t p (some k) v c = (c', .ok ()) := by
+  obtain ⟨c', hc'⟩ := set_some c k v
+  refine ⟨c', hc', ?_⟩
+  obtain ⟨hm, he, hb⟩ := h
+  have hg : guardRes t [.MARKET_KEEPER] = .ok () := by simp [guardRes, ensureAnyE, hasRoleE, hm, he, hb]
+  unfold updateFactorE withGuard
+  simp only [(market_keeper_passes_regardless_of_other_role t ⟨hm, he, hb⟩).1]
+  cases hp : p.factor k <;> simp [factorHandler, runFactorE, factorUpdatable_eq, hp, hg, hc']
+
+theorem keeper_any_flag_any_role_table (t : RoleTable) (h : IsLiveKeeper t) (p : Perms) (x : Flag) (b : Bool) (c : Cfg) :
+    updateFlagE t p (some x) b c = (c.setFlag x b, .ok ()) := by
+  obtain ⟨hm, he, hb⟩ := h
+  have hg : guardRes t [.MARKET_KEEPER] = .ok () := by simp [guardRes, ensureAnyE, hasRoleE, hm, he, hb]
+  unfold updateFlagE withGuard
+  simp only [(market_keeper_passes_regardless_of_other_role t ⟨hm, he, hb⟩).2.1]
+  cases hp : p.flag x <;> simp [flagHandler, runFlagE, hp, hg]
+
+theorem keeper_buffer_any_role_table (t : RoleTable) (h : IsLiveKeeper t) (p : Perms) (now expiry : Int) (es : List Entry) (c : Cfg)
+    (hexp : expiry > now) : updateWithBufferE t p true now expiry es c = applyEntries es c := by
+  obtain ⟨hm, he, hb⟩ := h
+  have hg : guardRes t [.MARKET_KEEPER] = .ok () := by simp [guardRes, ensureAnyE, hasRoleE, hm, he, hb]
+  have happly : ∀ r : Res, (match r with | (c', .ok ()) => runBufferE t p now expiry es [] c' | r => r) = r := by
+    intro r; obtain ⟨c', e⟩ := r; cases e with
+    | ok u => cases u; simp [runBufferE]
+    | error e => rfl
+  unfold updateWithBufferE withGuard
+  simp only [(market_keeper_passes_regardless_of_other_role t ⟨hm, he, hb⟩).2.2]
+  simp [bufferHandler, runBufferE, hexp, hg]
+  exact happly _
+
+/-- a non-member, or a member holding neither role while both are enabled, is rejected unchanged -/
+theorem stranger_rejected_any_role_table (t : RoleTable) (p : Perms)
+    (h : t.member = false ∨ (t.state .MARKET_KEEPER = .enabled ∧ t.state .MARKET_CONFIG_KEEPER = .enabled ∧
+          t.bit .MARKET_KEEPER = false ∧ t.bit .MARKET_CONFIG_KEEPER = false)) :
+    (∀ k v c, (updateFactorE t p k v c).1 = c ∧ (updateFactorE t p k v c).2 = .error .permissionDenied) ∧
+    (∀ x b c, (updateFlagE t p x b c).1 = c ∧ (updateFlagE t p x b c).2 = .error .permissionDenied) := by
+  have hg : ∀ ix, (info ix).attr = some [.MARKET_KEEPER, .MARKET_CONFIG_KEEPER] → guardE (info ix).attr t = .error .permissionDenied := by
+    intro ix hix; rw [hix]
+    rcases h with hm | ⟨h1, h2, h3, h4⟩
+    · simp [guardE, ensureAnyE, hasRoleE, hm]
+    · cases hm : t.member <;> simp [guardE, ensureAnyE, hasRoleE, hm, h1, h2, h3, h4]
+  constructor
+  · intro k v c; unfold updateFactorE withGuard; rw [hg _ (by decide)]; simp [ofG]
+  · intro x b c; unfold updateFlagE withGuard; rw [hg _ (by decide)]; simp [ofG]
+
+/-- OBSERVATION about the code as it is (source order MARKET_KEEPER first): a MARKET_CONFIG_KEEPER is
+rejected — with `NotFound` / `PreconditionsAreNotMet`, config untouched — while the MARKET_KEEPER role
+is not enabled in the store, even for an updatable key. The property does not promise otherwise (a
+config keeper is only bounded by the allow list), but the dependency is real. -/
+theorem config_keeper_needs_enabled_keeper_role_witness :
+    let t : RoleTable := ⟨fun r => if r = .MARKET_CONFIG_KEEPER then .enabled else .never, true, fun r => r == .MARKET_CONFIG_KEEPER⟩
+    updateFactorE t ⟨fun _ => true, fun _ => true⟩ (some .ReserveFactor) 7 Cfg.zero = (Cfg.zero, .error .notFound) := by
+  rfl
+
 /-! ## non-vacuity -/
 def onlyMck : Role → Bool := fun r => r == .MARKET_CONFIG_KEEPER
 def permsReserve : Perms := ⟨fun k => k == .ReserveFactor, fun _ => false⟩
